@@ -686,6 +686,11 @@ def settle(ck, s, drv, reqs):
             if plain_vis is not None and ans.startswith("ok:") and ";vis=" in ans:
                 s.compare((cid, "AppVisible"), "vis=" + ("true" if plain_vis else "false"), "vis=" + ans.split(";vis=")[1].split(";")[0],
                           "the decidable predicate AppVisible (hypothesis of hab_roundtrip_unsigned) differs from the reset-vector test evaluated on the real image")
+            if ans.startswith("ok:") and ";shape=" in ans and isinstance(cid, dict) and cid.get("mode") in ("auth", "enc"):
+                # the hypothesis GenCfg of theorem rom_accepts_general (decided by Model/HabGen.lean: genShape, sound by gen_shape_sound) holds for
+                # the command list CsfHabSegment.load_from_config produced; expected shape from the configuration alone
+                s.compare((cid, "GenCfg shape"), "shape=" + ("fast" if cid.get("nocak") else "std"), "shape=" + ans.split(";shape=")[1].split(";")[0],
+                          "the loaded CSF command list is outside the shape theorem rom_accepts_general covers (standard chain / fast authentication with Set, Unlock, NOP in the gaps)")
             if visible and ans.startswith("ok:"):
                 s.compare((cid, "model round trip"), "rt=true", ans.rsplit(";", 1)[-1], "model: parse (export cfg) differs from the expected segments (theorem hab_roundtrip_partial)")
             if got != real:
@@ -1111,7 +1116,10 @@ def dcd_streams(ck, drv):
             return CmdUnlockSNVS(rng.randrange(4)), None, "unlock/snvs"
         if u == 1:
             return CmdUnlockCAAM(rng.randrange(8)), None, "unlock/caam"
-        return CmdUnlockOCOTP(rng.randrange(16), rng.getrandbits(64)), None, "unlock/ocotp"
+        feat = rng.randrange(16)
+        uid = rng.getrandbits(64)
+        # a UID is part of the command only for the features that need one (mask 0b1101); otherwise it is not exported and reads back as 0
+        return CmdUnlockOCOTP(feat, uid if feat & 0b1101 else 0), None, "unlock/ocotp" + ("+uid" if feat & 0b1101 else "")
 
     def model_line(parsed):
         """what the model has to answer for the result of the real parse: ('ok', (fields, export, size)) or an error class"""
